@@ -49,9 +49,10 @@ pub struct Scn {
     /// modules[0] is the entry program
     pub modules: Vec<Module>,
     pub tapes: Vec<Tape>,
-    /// index of a module with a live counter that main bumps, and optionally a module that
-    /// re-exports that counter (chain)
-    pub live: Option<(usize, Option<usize>)>,
+    /// index of a module with a live counter that main bumps, and a chain of modules that
+    /// re-export that counter hop by hop (chain[0] from the counter module, chain[1] from
+    /// chain[0], ...); main reads it through the last hop
+    pub live: Option<(usize, Vec<usize>)>,
     pub gc_threshold: u32,
 }
 
@@ -168,9 +169,19 @@ pub fn generate_graph(rng: &mut Rng) -> Scn {
         None
     } else {
         let c = counters[rng.below(counters.len())];
-        // a module k < c (k != 0) that imports c can re-export its counter; main then needs k
-        let via = (1..c).find(|k| modules[*k].edges.iter().any(|e| e.to == c));
-        Some((c, if rng.chance(0.7) { via } else { None }))
+        // 0..3 hops: modules with decreasing indices below c (edges go from lower to higher index)
+        let mut chain: Vec<usize> = Vec::new();
+        let mut upper = c;
+        let hops = rng.below(4);
+        for _ in 0..hops {
+            if upper <= 1 {
+                break;
+            }
+            let k = 1 + rng.below(upper - 1);
+            chain.push(k);
+            upper = k;
+        }
+        Some((c, chain))
     };
     let tapes = (0..6)
         .map(|i| if i == 0 { Tape::from_vec(vec![]) } else { Tape::random(rng, 40) })
@@ -236,11 +247,14 @@ pub fn source_of(scn: &Scn, i: usize) -> String {
         }
     }
     // counter re-export chain
-    if let Some((c, Some(via))) = scn.live
-        && via == i
+    if let Some((c, chain)) = &scn.live
+        && let Some(pos) = chain.iter().position(|k| *k == i)
     {
-        let spec = scn.modules[i].edges.iter().find(|e| e.to == c).map(|e| e.spec.clone()).unwrap_or_default();
-        s.push_str(&format!("export {{ counter as chained_counter }} from \"{}\";\n", spec));
+        if pos == 0 {
+            s.push_str(&format!("export {{ counter as chained_counter }} from \"{}\";\n", scn.modules[*c].path));
+        } else {
+            s.push_str(&format!("export {{ chained_counter }} from \"{}\";\n", scn.modules[chain[pos - 1]].path));
+        }
     }
     s.push_str(&format!("console.log(\"run {}\");\n", m.name));
     s.push_str(&format!("export const v: number = {};\n", terms.join(" + ")));
@@ -251,7 +265,8 @@ pub fn source_of(scn: &Scn, i: usize) -> String {
     if i == 0 {
         // main: result = its own value plus the live-binding observations
         let mut tail = String::from("const __out: any[] = [v];\n");
-        if let Some((c, via)) = scn.live {
+        if let Some((c, chain)) = scn.live.clone() {
+            let via = chain.last().copied();
             let cm = &scn.modules[c];
             let spec_c = model_relative(&scn.modules[0].path, &cm.path);
             tail = format!(
@@ -293,10 +308,10 @@ fn model_relative(_importer: &str, target: &str) -> String {
 pub fn expected_result(scn: &Scn) -> String {
     let v = expected_values(scn);
     let mut out: Vec<i64> = vec![v[0]];
-    if let Some((_, via)) = scn.live {
+    if let Some((_, chain)) = &scn.live {
         out.push(0);
         out.push(2);
-        if via.is_some() {
+        if !chain.is_empty() {
             out.push(2);
         }
     }
@@ -311,11 +326,13 @@ fn all_edges(scn: &Scn) -> Vec<(usize, usize)> {
             e.push((i, ed.to));
         }
     }
-    if let Some((c, via)) = scn.live {
-        e.push((0, c));
-        if let Some(k) = via {
-            e.push((0, k));
-            e.push((k, c));
+    if let Some((c, chain)) = &scn.live {
+        e.push((0, *c));
+        for (pos, k) in chain.iter().enumerate() {
+            e.push((*k, if pos == 0 { *c } else { chain[pos - 1] }));
+        }
+        if let Some(k) = chain.last() {
+            e.push((0, *k));
         }
     }
     e
@@ -532,19 +549,19 @@ impl Check for C09 {
         if scn.live.is_some() {
             out.push(Scn { live: None, ..scn.clone() });
         }
-        if let Some((c, Some(_))) = scn.live {
-            out.push(Scn { live: Some((c, None)), ..scn.clone() });
+        if let Some((c, chain)) = &scn.live
+            && !chain.is_empty()
+        {
+            let mut ch = chain.clone();
+            ch.pop();
+            out.push(Scn { live: Some((*c, ch)), ..scn.clone() });
         }
         // remove an edge (keeping every module reachable is not required: unreachable modules are simply never requested)
         for i in 0..scn.modules.len() {
             for e in 0..scn.modules[i].edges.len() {
                 let mut s = scn.clone();
                 let to = s.modules[i].edges[e].to;
-                if let Some((c, via)) = s.live
-                    && (via == Some(i) && to == c)
-                {
-                    continue;
-                }
+
                 s.modules[i].edges.remove(e);
                 out.push(s);
             }
